@@ -967,6 +967,16 @@ func (ctx Ctx) basicLiteral(e *ast.BasicLit) coq.Expr {
 	return nil
 }
 
+// nilIsNull reports whether nil of type t is the null location: pointers
+// (also of a named pointer type) and maps, which are references to a map value
+func nilIsNull(t types.Type) bool {
+	switch t.Underlying().(type) {
+	case *types.Pointer, *types.Map:
+		return true
+	}
+	return false
+}
+
 func (ctx Ctx) isNilCompareExpr(e *ast.BinaryExpr) bool {
 	if !(e.Op == token.EQL || e.Op == token.NEQ) {
 		return false
@@ -1016,8 +1026,14 @@ func (ctx Ctx) binExpr(e *ast.BinaryExpr) coq.Expr {
 			Y:  ctx.expr(e.Y),
 		}
 		if ctx.isNilCompareExpr(e) {
-			if _, ok := ctx.typeOf(e.X).(*types.Pointer); ok {
+			if nilIsNull(ctx.typeOf(e.X)) {
 				expr.Y = coq.Null
+			}
+		} else if (e.Op == token.EQL || e.Op == token.NEQ) &&
+			ctx.info.Types[e.X].IsNil() {
+			// nil == x
+			if nilIsNull(ctx.typeOf(e.Y)) {
+				expr.X = coq.Null
 			}
 		}
 		return expr
